@@ -13,7 +13,7 @@ PROPERTY = "C34"
 LEVEL = "exploration"
 RULE = (
     "case = (limit kind byte|char, limit value, file size limit-1 | limit | limit+1 | 2*limit measured in that unit with ASCII or multi-byte text so that bytes != chars, lint|fix, serial|--processes 2, "
-    "large_file_skip_fail on|off, limit 0 = disabled); the directory also holds a small fixable companion file; driver in a fresh process runs the real Linter.lint_paths with wrappers counting "
+    "large_file_skip_fail on|off, limit 0 = disabled, limit configured in the project root or only in the file's own sub-directory config); the directory also holds a small fixable companion file; driver in a fresh process runs the real Linter.lint_paths with wrappers counting "
     "PyLexer.lex / Parser.parse calls per file and reads LintingResult.files_skipped; then the real CLI is run for the exit status; oracle for a file over the limit: never lexed/parsed, no violations "
     "reported, bytes/inode unchanged, counted as skipped, exit 1 iff large_file_skip_fail (else as the companion dictates); for a file at or below the limit: parsed, linted, fixed normally; "
     "distinct = parameter tuple; non-trivial = limit enabled"
@@ -37,12 +37,15 @@ def cases(tier, seed):
                             for fail in (False, True):
                                 if limit == 0 and (rel != "double" or fail):
                                     continue
-                                out.append({"id": f"{kind}:{limit}:{rel}:{text}:{mode}:p{procs}:fail={int(fail)}", "kind": kind, "limit": limit, "rel": rel, "text": text, "mode": mode, "procs": procs, "fail": fail})
+                                for where in ("root", "nested"):
+                                    if where == "nested" and (limit == 0 or text == "multibyte"):
+                                        continue
+                                    out.append({"id": f"{kind}:{limit}:{rel}:{text}:{mode}:p{procs}:fail={int(fail)}:{where}", "kind": kind, "limit": limit, "rel": rel, "text": text, "mode": mode, "procs": procs, "fail": fail, "where": where})
     if tier == "quick":
         import random
 
         random.Random(f"c34:{seed}").shuffle(out)
-        return out[:70]
+        return out[:60]
     return out
 
 
@@ -75,13 +78,22 @@ def run_case(case):
             core["large_file_skip_byte_limit"] = "0"
         if case["fail"]:
             core["large_file_skip_fail"] = "True"
+        bigdir = root
+        if case.get("where") == "nested":
+            # the limit is set only in the sub-directory's own config; the root allows far more
+            bigdir = os.path.join(root, "models", "legacy")
+            os.makedirs(bigdir)
+            nested_core = {key: core.pop(key)}
+            core[key] = "100000"
+            sf.write_ini(bigdir, {"core": nested_core})
         sf.write_ini(root, {"core": core})
-        with open(os.path.join(root, "big.sql"), "w", encoding="utf-8", newline="") as f:
+        bigpath = os.path.join(bigdir, "big.sql")
+        with open(bigpath, "w", encoding="utf-8", newline="") as f:
             f.write(txt)
         with open(os.path.join(root, "small.sql"), "w", encoding="utf-8", newline="") as f:
             f.write("select a from t;\n")
         over = bool(case["limit"]) and size > case["limit"]
-        st0 = os.stat(os.path.join(root, "big.sql"))
+        st0 = os.stat(bigpath)
         env = pool.worker_env({"HOME": root})
         pr = subprocess.run([pool.PYTHON, "-m", "vfw.props.C34", case["mode"], str(case["procs"])], cwd=root, capture_output=True, timeout=600, env=env)
         rep = None
@@ -90,8 +102,8 @@ def run_case(case):
                 rep = json.loads(line[10:])
         if rep is None:
             return {"status": "harness_error", "detail": pr.stderr.decode("utf-8", "replace")[-600:]}
-        now = open(os.path.join(root, "big.sql"), encoding="utf-8", newline="").read()
-        st1 = os.stat(os.path.join(root, "big.sql"))
+        now = open(bigpath, encoding="utf-8", newline="").read()
+        st1 = os.stat(bigpath)
         classes = ["limit.char"] if case["kind"] == "char" else ["limit.byte"]
         if over:
             if case["procs"] == 1 and (rep["lexed"].get("big.sql") or rep["parsed"].get("big.sql")):
@@ -110,7 +122,7 @@ def run_case(case):
             if case["mode"] == "fix" and now == txt:
                 fails.append({"sig": "file_within_limit_not_fixed", "detail": {"size": size, "limit": case["limit"]}})
         # exit status through the real CLI (fresh copy of the directory state)
-        with open(os.path.join(root, "big.sql"), "w", encoding="utf-8", newline="") as f:
+        with open(bigpath, "w", encoding="utf-8", newline="") as f:
             f.write(txt)
         cmd = [pool.PYTHON, "-m", "sqlfluff", case["mode"], ".", "--processes", str(case["procs"]), "--nocolor"]
         rc = subprocess.run(cmd, cwd=root, capture_output=True, timeout=600, env=env).returncode
